@@ -18,6 +18,7 @@ import (
 	"sort"
 	"strconv"
 	"strings"
+	"sync"
 	"time"
 )
 
@@ -71,6 +72,8 @@ type menv struct {
 	usedD19   bool
 	quirkD17b bool
 	usedD17b  bool
+	fixedD37  bool // "is unknown" propagates a non-suppressible operand error (finding D37 repaired)
+	usedD37   bool
 	sawD9     bool
 	steps     int
 }
@@ -89,6 +92,7 @@ type ModelResult struct {
 	OrderOpen bool
 	UsedD19   bool
 	UsedD17b  bool
+	UsedD37   bool
 	SawD9     bool
 }
 
@@ -99,9 +103,13 @@ func RunModel(p *Path, doc any, o Opts, vars map[string]any, quirkD19 bool, quir
 		zone = time.UTC
 	}
 	env := &menv{strict: p.Strict, root: doc, cur: doc, last: -1, vars: vars, hasVars: vars != nil, useTZ: o.TZ, zone: zone, ignore: !p.Strict, quirkD19: quirkD19}
+	env.fixedD37 = !d37Active() // every user of the model follows the tree, whichever way finding D37 stands
 	for _, q := range quirks {
 		if q == "D17b" {
 			env.quirkD17b = true
+		}
+		if q == "noD37" {
+			env.fixedD37 = true
 		}
 	}
 	m := &Model{env: env}
@@ -113,7 +121,22 @@ func RunModel(p *Path, doc any, o Opts, vars map[string]any, quirkD19 bool, quir
 		items = append(items, v)
 		return nil
 	})
-	return ModelResult{Items: items, Err: err, OrderOpen: env.orderOpen, UsedD19: env.usedD19, UsedD17b: env.usedD17b, SawD9: env.sawD9}
+	return ModelResult{Items: items, Err: err, OrderOpen: env.orderOpen, UsedD19: env.usedD19, UsedD17b: env.usedD17b, UsedD37: env.usedD37, SawD9: env.sawD9}
+}
+
+var (
+	d37Once  sync.Once
+	d37State bool
+)
+
+// d37Active probes once per process whether "is unknown" still swallows a non-suppressible error.
+func d37Active() bool {
+	d37Once.Do(func() {
+		if probe := quirkProbes["is_unknown_swallows_hard_error"]; probe != nil {
+			d37State = safeProbe(probe)
+		}
+	})
+	return d37State
 }
 
 type emitFn func(any) *merr
@@ -664,7 +687,15 @@ func (m *Model) pred(n *Node) (string, *merr) {
 			if err.dontCare {
 				return "U", err
 			}
-			return "T", nil // pinned behaviour: a failing operand is unknown
+			if err.hard {
+				// open finding D37: a non-suppressible error of the operand is swallowed and reads as
+				// unknown (pinned by a unit test); once repaired it has to surface like everywhere else
+				if m.env.fixedD37 {
+					return "U", err
+				}
+				m.env.usedD37 = true
+			}
+			return "T", nil
 		}
 		return kUnknown(o), nil
 	case KExists:
